@@ -62,6 +62,26 @@ func gen(t *rapid.T) Case {
 			Step{Kind: "handle", Obj: 0, Text: p, Methods: rapid.SampledFrom(methodSets).Draw(t, "tplMethods2"), MWs: mws(1)},
 			Step{Kind: "use", Router: 0, MWs: []int{rapid.IntRange(0, 7).Draw(t, "tplUse")}})
 	}
+	if len(c.Steps) == 0 && rapid.IntRange(0, 7).Draw(t, "deepTemplate") == 0 {
+		// nesting of a depth beyond the usual: a chain of three to nine prefixes, two or three sibling prefixes below the
+		// deepest, and a route through each sibling - the older siblings after the younger ones exist
+		d := rapid.IntRange(3, 9).Draw(t, "deepD")
+		parent := 0
+		for i := 0; i < d; i++ {
+			c.Steps = append(c.Steps, Step{Kind: "mkprefix", Obj: parent, Text: rapid.SampledFrom([]string{"/a", "", "/c/", "/b"}).Draw(t, "deepText"), MWs: []int{rapid.IntRange(0, 3).Draw(t, "deepMW")}})
+			parent = nobj
+			nobj++
+		}
+		var sibs []int
+		for i, k := 0, rapid.IntRange(2, 3).Draw(t, "deepSibs"); i < k; i++ {
+			c.Steps = append(c.Steps, Step{Kind: "mkprefix", Obj: parent, Text: []string{"/1", "/2", "/{id}"}[i], MWs: []int{(i + 1) % 4}})
+			sibs = append(sibs, nobj)
+			nobj++
+		}
+		for _, o := range sibs {
+			c.Steps = append(c.Steps, Step{Kind: "handle", Obj: o, Text: rapid.SampledFrom([]string{"", "/1"}).Draw(t, "deepSuffix"), Methods: []string{"GET"}, MWs: mws(1)})
+		}
+	}
 	for i, n := 0, rapid.IntRange(1, rig.Up(20)).Draw(t, "nsteps"); i < n; i++ {
 		var s Step
 		switch k := rapid.IntRange(0, 21).Draw(t, "kind"); {
